@@ -18,11 +18,11 @@ CHECKS = {
   "Hang = one parse exceeding 20 s with parser frames on the stack (bounded progress); inputs limited to 64 KiB as the property states.",
   "runtime monitor: panic/fatal-exit/hang monitor around the real parser over generated hostile inputs", "DESIGN.md §4 C09"),
  "C01": ("e-conn", "exploration",
-  "Real Service on a socket, scripted dispatcher whose behaviour is carried by each call, raw clients that pipeline and segment request bytes, N concurrent connections per round. A sequential model of one connection (written from the statement) predicts the reply frames and the handler log; observed frames (number-exact JSON), EOF position, handler log (target, flags as seen, result of every reply attempt), one-handler-at-a-time gauge and peer attribution must match. Holds on the scripts, segmentations and interleavings that were run; nothing is claimed about others. Workloads include long-lived connections (hundreds of calls), hundreds of simultaneously open connections with idle ones held, and rounds in which one client stops reading in the middle of a multi-MiB reply while the others must be served. Every reply length in a window below powers of two (4096 .. 131072, thorough to 2 MiB) is followed by further calls on the same connection. Handlers reply under derived contexts whose deadline passes before their next reply; nil and unencodable raw JSON reply values. Handler-sent standard errors carry the strings the routing errors carry.",
+  "Real Service on a socket, scripted dispatcher whose behaviour is carried by each call, raw clients that pipeline and segment request bytes, N concurrent connections per round. A sequential model of one connection (written from the statement) predicts the reply frames and the handler log; observed frames (number-exact JSON), EOF position, handler log (target, flags as seen, result of every reply attempt), one-handler-at-a-time gauge and peer attribution must match. Holds on the scripts, segmentations and interleavings that were run; nothing is claimed about others. Workloads include long-lived connections (hundreds of calls), hundreds of simultaneously open connections with idle ones held, and rounds in which one client stops reading in the middle of a multi-MiB reply while the others must be served. Every reply length in a window below powers of two (4096 .. 131072, thorough to 2 MiB) is followed by further calls on the same connection. Handlers reply under derived contexts whose deadline passes before their next reply; nil and unencodable raw JSON reply values. Handler-sent standard errors carry the strings the routing errors carry. Frames that fail to decode after flags or parameters were seen (unix sockets); stalled readers of 1 200 pipelined introspection replies; half of the Bind + DoListen rigs register interfaces between Bind and DoListen.",
   "Trusted: the ~150-line connection model, encoding/json as tokenizer, the kernel's FIFO accept queue (barrier probe). Connections ended by the service with unread pipelined data are run on unix sockets only.",
   "runtime monitor: reference-model oracle over recorded wire bytes and handler event log, concurrent connections, segmentation schedules", "DESIGN.md §4 C01"),
  "C02": ("e-pair", "exploration",
-  "A recording / re-segmenting proxy between a real Connection and a real Service captures both directions; every captured stream must split at NUL into exactly as many chunks as messages were sent, each a valid JSON object; values must arrive identically under every re-segmentation (as read, byte-wise, random pieces) and under exact partitions around the 4096-byte buffer on both receiving sides; every message length in windows around 4096 and 8192 (thorough 65536) is produced in both directions. Further parts: twelve connections with in-flight replies larger than the socket buffer (slow readers, two processors); a pause inside a reply after an earlier call's deadline; long pauses against a service with an idle timeout. Sends and receives interleaved on one connection while the proxy coalesces what the service sends into one segment. Replies whose value is a nil json.RawMessage or *json.RawMessage. Client Connections are closed twice; a watchdog reports client operations that outlive their context by far.",
+  "A recording / re-segmenting proxy between a real Connection and a real Service captures both directions; every captured stream must split at NUL into exactly as many chunks as messages were sent, each a valid JSON object; values must arrive identically under every re-segmentation (as read, byte-wise, random pieces) and under exact partitions around the 4096-byte buffer on both receiving sides; every message length in windows around 4096 and 8192 (thorough 65536) is produced in both directions. Further parts: twelve connections with in-flight replies larger than the socket buffer (slow readers, two processors); a pause inside a reply after an earlier call's deadline; long pauses against a service with an idle timeout. Sends and receives interleaved on one connection while the proxy coalesces what the service sends into one segment. Replies whose value is a nil json.RawMessage or *json.RawMessage. Client Connections are closed twice; a watchdog reports client operations that outlive their context by far. Service reception rounds in which ten other clients die inside a message larger than any internal buffer.",
   "Trusted: the proxy (forwards bytes verbatim, records what it read), json.Valid. Callers pass valid UTF-8.",
   "runtime monitor: wire-capture framing oracle + reference-model equality under segmentation schedules", "DESIGN.md §4 C02"),
  "C03": ("e-pair", "exploration",
@@ -30,11 +30,11 @@ CHECKS = {
   "Trusted: the 60-line JSON equality (encoding/json tokenizer, numbers compared as literal text).",
   "runtime monitor: round-trip value-equality oracle over recorded handler and client observations, 4 transports", "DESIGN.md §4 C03"),
  "C04": ("e-conn", "exploration",
-  "Adversarial sets of registered interface names x adversarial method strings, each connection ending with a GetInfo (still usable) and optionally a non-call frame followed by a call that must never be dispatched. The routing model from the statement predicts the single reply per call and the exact dispatcher invocation log (which dispatcher, which method name, once); any handler event for another dispatcher or peer is a violation. Registration attempts made while serving are refused and must leave no route behind.",
+  "Adversarial sets of registered interface names x adversarial method strings, each connection ending with a GetInfo (still usable) and optionally a non-call frame followed by a call that must never be dispatched. The routing model from the statement predicts the single reply per call and the exact dispatcher invocation log (which dispatcher, which method name, once); any handler event for another dispatcher or peer is a violation. Registration attempts made while serving are refused and must leave no route behind. Registrations between Bind and DoListen (accepted ones must be routable).",
   "Trusted: the routing model (split at last '.', exact table lookup). Names compared as exact byte strings.",
   "runtime monitor: reference-model oracle over reply frames and per-dispatcher invocation log", "DESIGN.md §4 C04"),
  "C10": ("e-conn", "fault_enumeration",
-  "Every generated byte stream (valid, mutated, wrong-shape, shuffled, random, unterminated) is aborted at EVERY byte offset, once by half-close (exact model oracle on replies and dispatches) and once by immediate close (prefix oracle), 48 aborts per round sharing the service with a well-behaved connection judged by the exact C01 oracle; plus aborts during multi-MiB replies and 8 MiB unterminated frames. After each configuration the active-connection counter must be 0, Shutdown must make the serving call return nil, and a service with an idle timeout must stop with ServiceTimeoutError. Process death in a journalled case is a violation. Every wrong-shape frame is used at least once; large well-formed calls are judged exactly; a stalled (not reading, not closing) client must not disturb the others. Long-lived connections carry tens of MiB (thorough: beyond 2^32 bytes) in each direction, every call answered exactly. Connections the service ends while the client keeps its socket open are released all the same. Clients pausing up to 2.5 s (thorough 12 s) inside a frame are answered.",
+  "Every generated byte stream (valid, mutated, wrong-shape, shuffled, random, unterminated) is aborted at EVERY byte offset, once by half-close (exact model oracle on replies and dispatches) and once by immediate close (prefix oracle), 48 aborts per round sharing the service with a well-behaved connection judged by the exact C01 oracle; plus aborts during multi-MiB replies and 8 MiB unterminated frames. After each configuration the active-connection counter must be 0, Shutdown must make the serving call return nil, and a service with an idle timeout must stop with ServiceTimeoutError. Process death in a journalled case is a violation. Every wrong-shape frame is used at least once; large well-formed calls are judged exactly; a stalled (not reading, not closing) client must not disturb the others. Long-lived connections carry tens of MiB (thorough: beyond 2^32 bytes) in each direction, every call answered exactly. Connections the service ends while the client keeps its socket open are released all the same. Clients pausing up to 2.5 s (thorough 12 s) inside a frame are answered. Clients that die inside a frame already larger than any read buffer, next to judged large calls; stalled readers of built-in replies.",
   "Trusted: frame classifier written from the statement; frames whose meaning depends on decoder details (case-variant / duplicate keys) are judged for crash and ordering only. Return after Shutdown / timeout is bounded progress (30 s).",
   "runtime monitor: fault injection (client abort at every byte offset) + reference-model oracle + resource-release monitor (white-box counter, serving-call return)", "DESIGN.md §4 C10"),
  "C11": ("e-client", "fault_enumeration",
@@ -42,15 +42,15 @@ CHECKS = {
   "Trusted: reply classifier from the statement; the scripted server reads the whole request before dying (orderly EOF, no reset).",
   "runtime monitor: fault injection (server death at every byte offset) + reference-model oracle over receive results and captured request bytes", "DESIGN.md §4 C11"),
  "C12": ("e-pair", "exploration",
-  "Scripted handler sends ReplyError(name, params) followed by a final reply; the real client and the recording proxy observe. Oracle from the statement: well-formed names outside org.varlink.service arrive as *varlink.Error with exactly that name (also on the wire) and number-exact parameters (none stays none); dot-less and reserved names are refused with an error to the handler and zero frames on the wire; the four built-in helpers arrive as their typed errors carrying exactly the given Unicode string.",
+  "Scripted handler sends ReplyError(name, params) followed by a final reply; the real client and the recording proxy observe. Oracle from the statement: well-formed names outside org.varlink.service arrive as *varlink.Error with exactly that name (also on the wire) and number-exact parameters (none stays none); dot-less and reserved names are refused with an error to the handler and zero frames on the wire; the four built-in helpers arrive as their typed errors carrying exactly the given Unicode string. Every fifth case follows a reply written into a connection its client has closed; eight concurrent clients with error names from a shared set of five.",
   "Trusted: the 10-line name model. Names with an empty member part: consistency only.",
   "runtime monitor: reference-model oracle over client error values, handler step results and captured wire frames", "DESIGN.md §4 C12"),
  "C13": ("e-pair", "exploration",
-  "Histories of register / duplicate register / serve / register-while-serving / shutdown / register-again / serve-again on one Service object with hostile identity strings and descriptions; after every operation done while serving a real client compares GetInfo, GetInterfaceDescription (every listed name and 7 near-misses each), Resolver.GetInfo and Resolver.Resolve with a small model; RegisterInterface must be refused exactly when duplicate or serving. A quarter of the serve periods end by idle timeout instead of Shutdown; out-variables hold stale values.",
+  "Histories of register / duplicate register / serve / register-while-serving / shutdown / register-again / serve-again on one Service object with hostile identity strings and descriptions; after every operation done while serving a real client compares GetInfo, GetInterfaceDescription (every listed name and 7 near-misses each), Resolver.GetInfo and Resolver.Resolve with a small model; RegisterInterface must be refused exactly when duplicate or serving. A quarter of the serve periods end by idle timeout instead of Shutdown; out-variables hold stale values. One name registered by 2-8 goroutines at the same instant (spinning barrier): exactly one call may return nil.",
   "Trusted: the model (ordered name list + description map + serving flag). Non-empty names, valid UTF-8.",
   "runtime monitor: model-based history checking through the client helpers", "DESIGN.md §4 C13"),
  "C14": ("e-life", "exploration",
-  "(A) A controlled net.Listener is installed through the white-box accessor and DoListen runs on it: the accept loop's steps are exactly its calls on the listener, so every valid history over {connect, call, close, abort, handler fails, cancel context, second Bind, second Listen} up to a length bound (quick 4, thorough 5) is ended by Shutdown at each of 4 placements (parked in Accept, inside SetDeadline = before accept, inside Accept just before a connection is returned, racing from another goroutine), plus random longer histories. Further placements: from inside a handler, before and racing with the start of the serving call; a third serve period through Listen. Decided on event order only: accepted connections are released exactly when they end and counted out; listener closed by the time Shutdown returned; no service for a connection offered afterwards; no return while connections are open; nil return once they ended (refuted logically if the loop is parked on a listener nobody closed); re-bind + serve + shutdown of the same object. (B) real unix/TCP sockets with Listen and Bind+DoListen: client loops and a serve/Shutdown cycle recorded with logical call/return stamps and checked with porcupine against 'ok only while bound'. Histories include a call followed in the same segment by the start of a frame that is never completed. Three consecutive periods with a context each: the earlier context ends during the later period. Two Service objects in one process using the same address string tcp:127.0.0.1:0.",
+  "(A) A controlled net.Listener is installed through the white-box accessor and DoListen runs on it: the accept loop's steps are exactly its calls on the listener, so every valid history over {connect, call, close, abort, handler fails, cancel context, second Bind, second Listen} up to a length bound (quick 4, thorough 5) is ended by Shutdown at each of 4 placements (parked in Accept, inside SetDeadline = before accept, inside Accept just before a connection is returned, racing from another goroutine), plus random longer histories. Further placements: from inside a handler, before and racing with the start of the serving call; a third serve period through Listen. Decided on event order only: accepted connections are released exactly when they end and counted out; listener closed by the time Shutdown returned; no service for a connection offered afterwards; no return while connections are open; nil return once they ended (refuted logically if the loop is parked on a listener nobody closed); re-bind + serve + shutdown of the same object. (B) real unix/TCP sockets with Listen and Bind+DoListen: client loops and a serve/Shutdown cycle recorded with logical call/return stamps and checked with porcupine against 'ok only while bound'. Histories include a call followed in the same segment by the start of a frame that is never completed. Three consecutive periods with a context each: the earlier context ends during the later period. Two Service objects in one process using the same address string tcp:127.0.0.1:0. A Shutdown that came before serving is followed by a second period of the same object, with and without a serving call in between.",
   "Trusted: controlled listener/conn (300 lines), porcupine v1.3.0, bounded progress (10 s per loop step, 20 s for the serving call to return). The drain grace (8 ms) and late-connection window (3 ms) are one-sided.",
   "runtime monitor: deterministic schedule control at the net.Listener boundary (bounded-exhaustive histories) + event-order oracle; porcupine linearizability check of recorded real-socket histories", "DESIGN.md §4 C14"),
  "C15": ("e-life", "exploration",
@@ -58,7 +58,7 @@ CHECKS = {
   "Trusted: controlled listener; real-clock part asserts only what holds for a correct service under any load (bounds 200 T).",
   "runtime monitor: virtual-time fault injection (accept-timeout expiry) at the net.Listener boundary over bounded-exhaustive histories + event-order oracle; real-clock one-sided checks", "DESIGN.md §4 C15"),
  "C16": ("e-race", "exploration",
-  "The driver is rebuilt with -race; every pair (thorough: and triple) of the service API operations the statement lists runs concurrently, with seeded start offsets and repetitions, against a Listen or DoListen that is known to be serving; connections used by one goroutine at a time run cancelled and timed-out I/O with the caller reusing its buffers at once; handlers are cancelled while blocked in connection I/O; the concurrent-connection workload of C01 (thorough: C14 epochs, C17 matrix) is re-run in the race build. Any race report with a github.com/varlink/go frame is a violation (de-duplicated by the pair of library frames). Fresh services get their first calls from several connections at the same instant (readiness = bare connect), half of them stop by a real idle expiry; handlers reply unencodable values; reports whose access is made by the harness' own white-box accessor are not counted; reports written before a child died are still judged. Bridge subprocesses that write to stderr.",
+  "The driver is rebuilt with -race; every pair (thorough: and triple) of the service API operations the statement lists runs concurrently, with seeded start offsets and repetitions, against a Listen or DoListen that is known to be serving; connections used by one goroutine at a time run cancelled and timed-out I/O with the caller reusing its buffers at once; handlers are cancelled while blocked in connection I/O; the concurrent-connection workload of C01 (thorough: C14 epochs, C17 matrix) is re-run in the race build. Any race report with a github.com/varlink/go frame is a violation (de-duplicated by the pair of library frames). Fresh services get their first calls from several connections at the same instant (readiness = bare connect), half of them stop by a real idle expiry; handlers reply unencodable values; reports whose access is made by the harness' own white-box accessor are not counted; reports written before a child died are still judged. Bridge subprocesses that write to stderr. Up to five registered names, new names that sort first, introspection on the connection that outlives Shutdown.",
   "Trusted: the Go race detector (reports only races whose both accesses executed). Reports without a library frame would be harness bugs (none observed).",
   "Go race detector (-race build, GORACE log files) over an operation-tuple stress workload", "DESIGN.md §4 C16"),
  "C17": ("e-ctx", "exploration",
@@ -66,7 +66,7 @@ CHECKS = {
   "Trusted: goroutine dump parsing ('internal/ctxio.(*Conn)' frames); bounded progress 10 s. An expired deadline left armed on the net.Conn is not observable through the API (every operation re-arms first) and is not asserted.",
   "runtime monitor: cancellation/deadline fault matrix + goroutine-leak monitor + stream-continuity oracle on reuse", "DESIGN.md §4 C17"),
  "C18": ("e-ctx", "exploration",
-  "Stream-integrity monitor (exactly-once, in order): a known byte stream with NULs anywhere is sent under segmentation schedules over pipe / unix / TCP and consumed through seeded interleavings of ReadBytes and Read(n) of many sizes; after every read the concatenation must be a prefix of what was sent and equal at end of stream. End to end: upgrade call + payload in one segment to a real Service whose handler reads Call.Conn; reply frame + payload in one segment to a real Connection that called Upgrade. A frame read must end at the first delimiter; frames whose length with the delimiter is a multiple of 4096 (or 1-3 bytes off) are followed by payload in the same segment.",
+  "Stream-integrity monitor (exactly-once, in order): a known byte stream with NULs anywhere is sent under segmentation schedules over pipe / unix / TCP and consumed through seeded interleavings of ReadBytes and Read(n) of many sizes; after every read the concatenation must be a prefix of what was sent and equal at end of stream. End to end: upgrade call + payload in one segment to a real Service whose handler reads Call.Conn; reply frame + payload in one segment to a real Connection that called Upgrade. A frame read must end at the first delimiter; frames whose length with the delimiter is a multiple of 4096 (or 1-3 bytes off) are followed by payload in the same segment. Reads whose context has ended are not judged here (C17 judges them).",
   "Trusted: the peer-side writer. net.Pipe refuses deadlines once the other end is closed, so on the in-memory pipe no verdict is drawn on bytes still buffered at that moment.",
   "runtime monitor: stream-integrity (prefix) oracle over interleaved read primitives and segmentation schedules", "DESIGN.md §4 C18"),
  "C19": ("e-addr", "exploration",
@@ -74,11 +74,11 @@ CHECKS = {
   "Trusted: the 15-line classifier written from the statement. unix:@ and port 0 judged for totality only; no host names (no resolver in the sandbox).",
   "runtime monitor: reference-classifier oracle + client/service consistency round trips + filesystem observations, panic monitor", "DESIGN.md §4 C19"),
  "C20": ("e-activ", "exploration",
-  "The full product of the quantifier (4 x 8 x 8 x 3 = 768 configurations; thorough x 3 kinds of non-selected descriptors) is enumerated completely: a helper process inherits three distinguishable candidates as fds 3,4,5, sets LISTEN_PID per case and calls Service.Listen(fallback). A 20-line model from the statement says which single endpoint must answer GetInfo with the helper's unique identity; no other candidate may answer; the helper must not panic. Extra cases: inherited listening TCP sockets. Up to three serve periods in one activated process with forced garbage collections in between. The process changes LISTEN_PID between two periods.",
+  "The full product of the quantifier (4 x 8 x 8 x 3 = 768 configurations; thorough x 3 kinds of non-selected descriptors) is enumerated completely: a helper process inherits three distinguishable candidates as fds 3,4,5, sets LISTEN_PID per case and calls Service.Listen(fallback). A 20-line model from the statement says which single endpoint must answer GetInfo with the helper's unique identity; no other candidate may answer; the helper must not panic. Extra cases: inherited listening TCP sockets. Up to three serve periods in one activated process with forced garbage collections in between. The process changes LISTEN_PID between two periods. A second Service object in a process whose first service fell back to its address argument.",
   "Trusted: the selection model (A.6); kernel fd inheritance via exec ExtraFiles. The negative probes are one-sided (15 ms).",
   "runtime monitor: exhaustive configuration enumeration through a helper subprocess + reference-model oracle on which endpoint answers", "DESIGN.md §4 C20"),
  "C07": ("e-gen", "translation_validation",
-  "Per-program validation of the generator: the generator binary built from the tree under test is run (twice, for determinism) on every description of a set that covers the quantifier (23 fixed special cases, every type of depth <= 2 at method input / output / error parameter / alias body / nested positions, seeded random descriptions in 4 layouts, all filtered through the real parser so that only accepted descriptions count); every output is compiled in a batch module against the tree's varlink package by the Go compiler; the compiled packages report VarlinkGetName()/VarlinkGetDescription(), compared with the description. Generator exit status, panic text, file count, package clause and byte-identical second run are checked per program.",
+  "Per-program validation of the generator: the generator binary built from the tree under test is run (twice, for determinism) on every description of a set that covers the quantifier (23 fixed special cases, every type of depth <= 2 at method input / output / error parameter / alias body / nested positions, seeded random descriptions in 4 layouts, all filtered through the real parser so that only accepted descriptions count); every output is compiled in a batch module against the tree's varlink package by the Go compiler; the compiled packages report VarlinkGetName()/VarlinkGetDescription(), compared with the description. Generator exit status, panic text, file count, package clause and byte-identical second run are checked per program. Interface names whose labels run together into a Go keyword or main.",
   "Trusted: the Go compiler as oracle of 'compiles and type-checks'; my description generator's reading of the domain (member names [A-Z][A-Za-z0-9]* outside the generator's fixed identifiers). One known finding (field named 'error' in an error) is listed in KNOWN_FINDINGS.json.",
   "runtime validation per generated program: run the generator binary, compile its output with the Go compiler, execute and compare reported name/description (translation validation by execution)", "DESIGN.md §4 C07"),
  "C08": ("e-gen", "translation_validation",
